@@ -28,7 +28,7 @@ theorem swT_of_ok {A : PE} (h : swTargetsOk A = true) : SwT A := by
 /-- a kernel satisfies the invariant of merged graphs -/
 theorem inv_of_kernel {K : PE} (h : K.kwf = true) : Inv K := by
   obtain ⟨hwf, hcon, hsw, _⟩ := kwf_parts h
-  refine ⟨wf_unique hwf, fun j n hn => (wf_node hwf hn).1, fun j n hn => (wf_node hwf hn).2.2, swT_of_ok hsw, ?_⟩
+  refine ⟨wf_unique hwf, fun j n hn => (wf_node hwf hn).1, fun j n hn => (wf_node hwf hn).2.2.1, swT_of_ok hsw, ?_⟩
   apply slotInv_of_noMux
   intro k p t ht
   cases k with
@@ -78,34 +78,53 @@ theorem routable_self {K : PE} (h : K.kwf = true) : Routable K K ∧ covers K K 
     simp only [coversNode, lookup_of_get hu hk, hk, List.all_eq_true, List.contains_eq_mem, decide_eq_true_eq]
     exact fun o ho => ho
 
+theorem cu_of_wf {K : PE} (h : K.wf = true) : CU K := fun _ _ hn => (wf_node h hn).2.2.2
+
+theorem mem_allOps {gs : List PE} {o : OpCode} : o ∈ allOps gs ↔ ∃ g, g ∈ gs ∧ ∃ n, n ∈ g.nodes ∧ o ∈ n.ops := by
+  simp only [allOps, List.mem_flatMap]
+
+theorem opsIn_of_mem {S : List OpCode} {K : PE} (h : ∀ n, n ∈ K.nodes → ∀ o, o ∈ n.ops → o ∈ S) : OpsIn S K :=
+  fun _ n hn o ho => h n (List.mem_of_getElem? hn) o ho
+
 /-- **merge histories**: after merging any list of kernels into an element that satisfies the invariant, the
-invariant holds, the data ports are unchanged and every kernel merged before or now is routable and covered -/
-theorem mergeAll_ok : ∀ (ks : List PE) (A0 A : PE) (merged : List PE), Inv A0 →
+invariant holds, the data ports are unchanged, every kernel merged before or now is routable, and — PROVIDED
+all operations come from a set `S` in which the class determines the operation — covered -/
+theorem mergeAll_ok (S : List OpCode) (hS : ClassFun S) : ∀ (ks : List PE) (A0 A : PE) (merged : List PE),
+    Inv A0 → CU A0 → OpsIn S A0 →
     (∀ K, K ∈ merged → Routable A0 K ∧ covers A0 K = true) → (∀ k, k ∈ ks → k.kwf = true) →
+    (∀ k, k ∈ ks → ∀ n, n ∈ k.nodes → ∀ o, o ∈ n.ops → o ∈ S) →
     mergeAll A0 ks = .ok A →
-    Inv A ∧ A.argTys = A0.argTys ∧ ∀ K, K ∈ merged ++ ks → Routable A K ∧ covers A K = true
-  | [], A0, A, merged, hinv, hm, _, h => by
+    Inv A ∧ CU A ∧ A.argTys = A0.argTys ∧ ∀ K, K ∈ merged ++ ks → Routable A K ∧ covers A K = true
+  | [], A0, A, merged, hinv, hcu, _, hm, _, _, h => by
     simp only [mergeAll, Except.ok.injEq] at h; subst h
-    exact ⟨hinv, rfl, by simpa using hm⟩
-  | g :: r, A0, A, merged, hinv, hm, hk, h => by
+    exact ⟨hinv, hcu, rfl, by simpa using hm⟩
+  | g :: r, A0, A, merged, hinv, hcu, hin, hm, hk, hkS, h => by
     unfold mergeAll at h
     split at h
     · simp at h
     next A1 h1 =>
       have hg := hk g (by simp)
       obtain ⟨hgwf, _, _, _⟩ := kwf_parts hg
-      obtain ⟨hinv1, hext, hrg, hcg⟩ := combine_ok hinv
+      have hgS : ∀ n, n ∈ g.nodes → ∀ o, o ∈ n.ops → o ∈ S := hkS g (by simp)
+      obtain ⟨hinv1, hext, hrg, hf⟩ := combine_ok hinv
         (fun n hn => by
           obtain ⟨c, hc, hcn⟩ := List.getElem_of_mem hn
           exact (wf_node hgwf (by rw [List.getElem?_eq_getElem hc, hcn])).1) h1
-      obtain ⟨hinvA, hargs, hall⟩ := mergeAll_ok r A1 A (merged ++ [g]) hinv1
+      have hcu1 : CU A1 := hf.cu hcu (fun n hn => by
+        obtain ⟨c, hc, hcn⟩ := List.getElem_of_mem hn
+        exact (wf_node hgwf (by rw [List.getElem?_eq_getElem hc, hcn])).2.2.2)
+      have hin1 : OpsIn S A1 := hf.opsIn S hin hgS
+      have hcg : covers A1 g = true := by
+        simp only [covers, List.all_eq_true]
+        exact fun n hn => hf.cov S hS hin hgS n hn
+      obtain ⟨hinvA, hcuA, hargs, hall⟩ := mergeAll_ok S hS r A1 A (merged ++ [g]) hinv1 hcu1 hin1
         (by
           intro K hK
           rcases List.mem_append.mp hK with hK | hK
           · exact ⟨routable_mono hext (hm K hK).1, covers_mono hext (hm K hK).2⟩
           · simp at hK; subst hK; exact ⟨hrg, hcg⟩)
-        (fun k hk' => hk k (by simp [hk'])) h
-      refine ⟨hinvA, hargs.trans hext.args, ?_⟩
+        (fun k hk' => hk k (by simp [hk'])) (fun k hk' => hkS k (by simp [hk'])) h
+      refine ⟨hinvA, hcuA, hargs.trans hext.args, ?_⟩
       intro K hK
       apply hall K
       simpa using hK
